@@ -198,13 +198,13 @@ def the_case(N, falsy=False):
 
 
 def cases(tier, seed):
-    N = 4 if tier == "quick" else 6
+    N = 4 if tier == "quick" else 7
     cs = []
     for k in KINDS:
         cs.append(Case("leaf:%s" % k, leaf(k), reset=eql_reset, meta=dict(ints="unbounded")))
         cs.append(Case("ctor:%s" % k, ctor(k), reset=eql_reset, meta=dict(ints="unbounded")))
         cs.append(Case("an:%s|N<=%d" % (k, N), integ(k, N), key="an:%s" % k, reset=eql_reset, timeout=600, max_paths=200000, meta=dict(N=N)))
-        M_ = 3 if tier == "quick" else 4
+        M_ = 3 if tier == "quick" else 5
         cs.append(Case("an:%s|two overlapping evaluations|N<=%d" % (k, M_), integ(k, M_, overlapping=True), key="an:%s|overlapping" % k, reset=eql_reset, timeout=600, max_paths=200000, meta=dict(N=M_)))
     cs.append(Case("the|N<=%d" % N, the_case(N), key="the", reset=eql_reset, timeout=600, meta=dict(N=N)))
     cs.append(Case("the|some elements are falsy objects|N<=3", the_case(3, falsy=True), key="the|falsy", reset=eql_reset, timeout=600, meta=dict(N=3)))
@@ -212,7 +212,7 @@ def cases(tier, seed):
 
 
 def describe(tier):
-    N = 4 if tier == "quick" else 6
+    N = 4 if tier == "quick" else 7
     return dict(
         rule="one case per constraint class x {leaf assert_satisfaction, constructor, an(...) integration, an(...) with two evaluations of the same query object advanced alternately} + the(); "
         "a case is non-trivial when its exploration has >= 2 feasible paths and some path yields a result or raises",
